@@ -4,6 +4,7 @@
 set -u
 D="$1"; cd "$D" || exit 2
 export CARGO_NET_OFFLINE=true
+[ -d "${D%/}-target" ] && export CARGO_TARGET_DIR="${D%/}-target"
 run() { cargo test --workspace --no-fail-fast --offline 2>&1 | grep -E "^test .* (ok|FAILED)$|^test result|error(\[|:)" ; }
 echo "== state: $(git status --short | grep -v seed_out | tr '\n' ' ')"
 echo "== WITH change (+demo)"; run > seed_out/confirm_with.log
